@@ -7,10 +7,14 @@ sequences of distinct applicable offers.  A second mode goes through Supports / 
 Instance(adapt=...) traits with the manager installed globally.
 """
 import abc
+import importlib.abc
+import importlib.machinery
+import sys
 
 from hypothesis import strategies as st
 
 from traits.adaptation.api import AdaptationManager, AdaptationError, get_global_adaptation_manager, set_global_adaptation_manager
+from traits.adaptation.adaptation_offer import AdaptationOffer
 from traits.api import HasTraits, Supports, AdaptsTo, Instance, TraitError
 
 ID = "C17"
@@ -21,6 +25,29 @@ RULE = ("Hypothesis cases: 2-6 classes (bases, ABC flags, register pairs), 0-2 c
         "candidate chains, a chain of length >=2, a cycle among the offers or a conditional factory on a candidate; distinct by digest")
 ASSUMPTIONS = ["factories are deterministic functions of the chain they wrap",
                "a watchdog expiry on these tiny inputs counts as a violation of 'returns or raises'"]
+
+
+# ---- modules that exist only as a recipe until somebody imports them (for offers whose protocols and factory are given
+# as dotted strings: the documented way to keep a plugin un-imported until an adaptation needs it)
+LAZY = {}          # module name -> function(module) that fills it
+LAZY_SERIAL = [0]
+
+
+class _LazyFinder(importlib.abc.MetaPathFinder, importlib.abc.Loader):
+    def find_spec(self, fullname, path, target=None):
+        if fullname in LAZY:
+            return importlib.machinery.ModuleSpec(fullname, self)
+        return None
+
+    def create_module(self, spec):
+        return None
+
+    def exec_module(self, module):
+        LAZY[module.__name__](module)
+
+
+if not any(isinstance(f, _LazyFinder) for f in sys.meta_path):
+    sys.meta_path.append(_LazyFinder())
 
 
 class Wrap:
@@ -88,7 +115,11 @@ def strategy(tier):
         "mode": st.sampled_from(["adapt", "adapt", "adapt_default", "supports", "adaptsto", "instance_yes"]),
         # specificity scenario: a twin of the first offer registered for a protocol the source provides only by ABC
         # registration, or for a subclass of the source (which then is the adaptee's class)
-        "twin": st.sampled_from([None, None, "registered", "subclass", "registered-first", "subclass-first"]),
+        # "lazy-*": the twin offer names its protocol and factory by dotted strings into a module that is not imported yet
+        # and in which the protocol declares (ABC.register) that the source class provides it; "lazy-replace" puts it in
+        # the place of the first offer of the path, so that the only chain runs through the un-imported module
+        "twin": st.sampled_from([None, None, None, "registered", "subclass", "registered-first", "subclass-first",
+                                 "lazy-add", "lazy-replace", "lazy-replace"]),
         # ABC registrations that happen only AFTER a first adaptation attempt (results must not be remembered across them)
         "late_regs": st.lists(st.tuples(I5, I5).map(list), max_size=2),
         # a SHORT chain (k offers through fresh classes) that enters through an extra BASE class of the adaptee's class,
@@ -101,6 +132,15 @@ def strategy(tier):
 
 
 def run(case, ctx):
+    try:
+        _run(case, ctx)
+    finally:
+        for name in list(LAZY):
+            sys.modules.pop(name, None)
+            del LAZY[name]
+
+
+def _run(case, ctx):
     classes = build_classes(case["classes"])
     n = len(classes)
     for (a, b) in case["regs"]:
@@ -122,15 +162,22 @@ def run(case, ctx):
     adaptee_cls = None
     if twin and case["paths"] and case["start_at_path"]:
         f0, t0 = case["paths"][0][0] % n, case["paths"][0][1] % n
-        if twin.startswith("registered"):
+        if twin.startswith("lazy"):
+            # the harness-side stand-in with the same subclass relation (the real class lives in the lazy module)
+            Pcls = abc.ABCMeta("LazyP", (object,), {})
+            Pcls.register(classes[f0])
+        elif twin.startswith("registered"):
             Pcls = abc.ABCMeta("P", (object,), {})
             Pcls.register(classes[f0])
         else:
             Pcls = type("Sub", (classes[f0],), {})
             adaptee_cls = Pcls
         classes.append(Pcls)
-        new_offer = (Pcls, t0, 0)
-        offers = [new_offer] + offers if twin.endswith("first") else offers + [new_offer]
+        new_offer = (Pcls, t0, 7 if twin.startswith("lazy") else 0)
+        if twin == "lazy-replace":
+            offers = [new_offer] + offers[1:]
+        else:
+            offers = [new_offer] + offers if twin.endswith("first") else offers + [new_offer]
         ctx.label("twin:" + twin)
     vb = case.get("via_base", 0)
     if vb and not twin and case["paths"] and case["start_at_path"]:
@@ -163,7 +210,20 @@ def run(case, ctx):
             if not cond_ok(cond, len(ch)):
                 return None
             return Wrap(adaptee, oid)
-        mgr.register_factory(factory, F, Tt)
+        if cond == 7:
+            LAZY_SERIAL[0] += 1
+            lazy_name = "vf_c17_lazy_%d" % LAZY_SERIAL[0]
+
+            def fill(module, factory=factory, src=classes[case["paths"][0][0] % n], Tt=Tt):
+                module.LazyP = abc.ABCMeta("LazyP", (object,), {})
+                module.LazyP.register(src)
+                module.factory = factory
+                module.Target = Tt
+            LAZY[lazy_name] = fill
+            mgr.register_offer(AdaptationOffer(factory=lazy_name + ".factory", from_protocol=lazy_name + ".LazyP",
+                                               to_protocol=lazy_name + ":Target"))
+        else:
+            mgr.register_factory(factory, F, Tt)
         offs.append((F, Tt, cond))
     if case.get("late_regs"):
         # first attempt with the early registrations only (its outcome is not judged, it only warms whatever is cached)
